@@ -2,8 +2,9 @@
 # tools/seedeval.sh <Cxx> [extra check ids...]
 # Confirms a seeded change delivered under /tmp/seed/out/<Cxx>/ (patch.diff, demo_test.go) in a scratch
 # worktree (compiles, suite green, demo fails with / passes without), then runs the check(s) against it
-# by applying it to /repo and undoing it straight afterwards. Keeps it under /verif/seeded/<Cxx>/.
+# by applying it to /repo and undoing it straight afterwards. Keeps it under $VROOT/seeded/<Cxx>/.
 set -u
+export VROOT="${VROOT:-/verif}"
 id="$1"; shift
 checks="$id $*"
 src=/tmp/seed/out/$id
@@ -29,18 +30,18 @@ if [ $ok -eq 1 ]; then
   # the checks are run against the scratch worktree with the change applied (VERIF_REPO), which is what
   # "git -C /repo apply; ./check; git -C /repo checkout" does, without disturbing background runs that read /repo
   for c in $checks; do
-    out=$(VERIF_REPO="$wt" /verif/check "$c" quick 2>&1 | grep -v "^Warning: couldn't lock")
+    out=$(VERIF_REPO="$wt" $VROOT/check "$c" quick 2>&1 | grep -v "^Warning: couldn't lock")
     code=$(echo "$out" | grep -E "^$c quick:" | sed 's/.*exit=//')
     sigs=$(echo "$out" | grep -E "^  finding:" | sed 's/  finding: //' | tr '\n' ' ')
     [ -z "$code" ] && code="build-or-engine-error: $(echo "$out" | tail -2 | tr '\n' ' ')"
     verdict[$c]="exit=$code findings=[$sigs]"
     res "check $c: exit=$code $sigs"
   done
-  rm -f /verif/replays/*.json
+  rm -f $VROOT/replays/*.json
 fi
-mkdir -p /verif/seeded/$id
-cp "$src/patch.diff" "$src/demo_test.go" /verif/seeded/$id/
-[ -f "$src/README.md" ] && cp "$src/README.md" /verif/seeded/$id/AUTHOR_NOTES.md
+mkdir -p $VROOT/seeded/$id
+cp "$src/patch.diff" "$src/demo_test.go" $VROOT/seeded/$id/
+[ -f "$src/README.md" ] && cp "$src/README.md" $VROOT/seeded/$id/AUTHOR_NOTES.md
 python3 - "$id" "$ok" "$build" "$suite" "$base" "$mut" <<PY
 import json,sys,os
 id,ok,build,suite,base,mut=sys.argv[1:7]
@@ -48,14 +49,15 @@ meta={"property":id,"confirmed":ok=="1","compiles":build=="0","suite_green":suit
  "what_i_ran":["git worktree add (scratch), demo on clean tree, git apply patch.diff, go build ./..., go test -run TestSeeded%s, go test ./... (suite)"%id,"VERIF_REPO=<scratch worktree with patch.diff applied> ./check <id> quick"],
  "checks":{}}
 for line in open('/dev/stdin') if False else []: pass
-json.dump(meta,open('/verif/seeded/%s/meta.json'%id,'w'),indent=1)
+json.dump(meta,open('$VROOT/seeded/%s/meta.json'%id,'w'),indent=1)
 PY
 for c in $checks; do
   [ -n "${verdict[$c]:-}" ] && python3 - "$id" "$c" "${verdict[$c]}" <<'PY'
 import json,sys
 id,c,v=sys.argv[1:4]
-p='/verif/seeded/%s/meta.json'%id
+import os
+p=os.environ.get('VROOT','/verif')+'/seeded/%s/meta.json'%id
 m=json.load(open(p)); m['checks'][c]=v; json.dump(m,open(p,'w'),indent=1)
 PY
 done
-cat /verif/seeded/$id/meta.json | head -30
+cat $VROOT/seeded/$id/meta.json | head -30
